@@ -3,6 +3,9 @@
 import json, sys
 sys.path.insert(0, '/verif')
 from contracts import registry as R
+from vgen import tagcheck
+if tagcheck.main() != 0:
+    sys.exit('registry.py: a tagged function/clause is in no unit of its property (see vgen/tagcheck.py)')
 
 NA = {
     'C11': 'whole-history / schedule property (operation sequences, 16 threads): no per-call contract expresses it; Kani has no threads, Verus would need permission types the code does not have. The one per-call ingredient (fixed key iteration order in map/filter) is a clause of C07.',
